@@ -16,12 +16,14 @@
 (*     byte is inside when (off,len) strictly contains its offset - and every range that was locked as exactly (off,len)     *)
 (*     through try_lock_wait;                                                                                               *)
 (*   adjust_range granted => the new range shares no byte with any other held range; a refusal changes nothing (always ok).  *)
-(* Every mismatching row is printed as "MISMATCH <line> <set>"; known deviations are re-judged with one switch each and      *)
-(* printed as "KFHIT <line> <switch>" when that switch alone explains the whole row:                                         *)
+(* Known deviations are switches (environment KF_F11=1, KF_C18a=1; all off = the property itself):                           *)
 (*   F11   from the moment a request that covers no byte is granted while another held range covers no byte at the same      *)
 (*         offset (two keys a, b with a < b and b < a in the std::set: its behaviour is undefined from then on), every       *)
 (*         later answer is accepted; the harness stops releasing from that moment (result -9 = call not made).              *)
 (*   C18a  unlock(off,len) does not release a range that covers no byte and was locked as exactly (off,len).                 *)
+(* All rows are judged while the initial state is computed.  A row the property rejects is printed as                       *)
+(*   "MISMATCH <line> <problems>"        if the enabled switches do not explain it either (problems = those of the property), *)
+(*   "KFHIT <line> <switches needed>"    if they do.                                                                        *)
 EXTENDS Naturals, Integers, Sequences, FiniteSets, TLC, Json, IOUtils
 Tr == ndJsonDeserialize(IOEnv.TRACE)
 VARIABLE l
@@ -39,7 +41,7 @@ Dead == <<0, 0, 0, 0>>
 
 \* one call; returns <<H', dup', problems>>
 Step(M, H, dup, op, kf) ==
-  LET kind == op[1]  res == op[5]  quiet == (kf = "F11" /\ dup) IN
+  LET kind == op[1]  res == op[5]  quiet == ("F11" \in kf /\ dup) IN
   CASE kind \in {1, 2} ->
          LET o == op[2]  n == op[3]
              ov == \E j \in Live(H) : Overlap(M, H[j][1], H[j][2], o, n)
@@ -58,7 +60,7 @@ Step(M, H, dup, op, kf) ==
          ELSE LET o == op[2]  n == op[3]
                   gone(j) == /\ Contains(M, o, n, H[j][1], H[j][2])
                              /\ \/ Touch(M, o, n, H[j][1], H[j][2])
-                                \/ (kf # "C18a" /\ H[j][4] = 2 /\ H[j][1] = o /\ H[j][2] = n)
+                                \/ ("C18a" \notin kf /\ H[j][4] = 2 /\ H[j][1] = o /\ H[j][2] = n)
               IN <<Append([j \in 1..Len(H) |-> IF H[j][3] = 1 /\ gone(j) THEN Dead ELSE H[j]], Dead), dup, {}>>
     [] kind = 5 ->
          IF res = -9 THEN <<Append(H, Dead), dup, IF dup THEN {} ELSE {"harness did not make the call"}>>
@@ -76,15 +78,16 @@ Run(M, ops, i, H, dup, kf) ==
   ELSE LET s == Step(M, H, dup, ops[i], kf) IN s[3] \cup Run(M, ops, i + 1, s[1], s[2], kf)
 
 Problems(r, kf) == IF r.e # "Seq" THEN {"fatal: " \o r.e} ELSE Run(r.M, r.ops, 1, <<>>, FALSE, kf)
-KFS == {"F11", "C18a"}
-
-Init == l = 1
-Next == /\ l <= Len(Tr)
-        /\ LET p == Problems(Tr[l], "none") IN
-           IF p = {} THEN TRUE
-           ELSE /\ PrintT("MISMATCH " \o ToString(l) \o " " \o ToString(p))
-                /\ \A kf \in KFS : IF Problems(Tr[l], kf) = {} THEN PrintT("KFHIT " \o ToString(l) \o " " \o kf) ELSE TRUE
-        /\ l' = l + 1
+KF(k) == ("KF_" \o k) \in DOMAIN IOEnv /\ IOEnv["KF_" \o k] = "1"
+KFS == {k \in {"F11", "C18a"} : KF(k)}
+Judge(i) == LET p == Problems(Tr[i], {}) IN
+            IF p = {} THEN TRUE
+            ELSE IF Problems(Tr[i], KFS) # {} THEN PrintT("MISMATCH " \o ToString(i) \o " " \o ToString(p))
+            ELSE LET need == {k \in KFS : Problems(Tr[i], KFS \ {k}) # {}} IN
+                 PrintT("KFHIT " \o ToString(i) \o " " \o ToString(IF need = {} THEN KFS ELSE need))
+Init == /\ l = 1
+        /\ \A i \in 1..Len(Tr) : Judge(i)
+        /\ PrintT(<<"JUDGED", Len(Tr)>>)
+Next == l = 1 /\ l' = 2
 Spec == Init /\ [][Next]_l
-NotAccepted == l <= Len(Tr)
 ====
